@@ -682,6 +682,8 @@ def run_s11_s12(chk, repo):
     run_p13_p15(chk, repo)
     run_p16(chk, repo)
     run_s13(chk, repo)
+    from rules.C01b import run_theta_sentinels
+    run_theta_sentinels(chk, repo, 'S14')
 
 
 def run_s13(chk, repo):
